@@ -18,6 +18,7 @@ type runReq struct {
 	Args   []string `json:"args"`
 	RunDir string   `json:"run_dir"`
 	DSSE   bool     `json:"dsse"`
+	Norm   bool     `json:"norm"` // line normalisation switch of InTotoRun (concerns artifacts only)
 }
 
 type runResp struct {
@@ -84,7 +85,7 @@ func dispatch(mode string, args []string) bool {
 				}
 				fill(&resp, m)
 			case "intotorun":
-				md, err := intoto.InTotoRun("step", req.RunDir, []string{}, []string{}, req.Args, intoto.Key{}, []string{"sha256"}, nil, nil, false, false, req.DSSE)
+				md, err := intoto.InTotoRun("step", req.RunDir, []string{}, []string{}, req.Args, intoto.Key{}, []string{"sha256"}, nil, nil, req.Norm, false, req.DSSE)
 				if err != nil {
 					resp.Err = err.Error()
 					return
